@@ -97,11 +97,18 @@ CHECKS = {
              'max high, min low, summed volume) for every non-empty list; the GENERATED gap normalisation only moves the open '
              'to the previous close and extends low/high; under the store invariant (complete windows + at most one partial '
              'candle of the forming window) the model of get_candles / get_current_candle returns exactly one candle per '
-             'started window, the last one the aggregate of the forming window. Tie: translator + store correspondence; '
-             'oracle on real sessions reads every timeframe at every hook in both simulators.',
-        technique='Lean 4 theorems over generated aggregation + hand store model (window decomposition, invariant); correspondence; session oracle',
-        ref='4 (C07)',
-        note='That both simulators maintain the store invariant is checked by the session oracle, not yet by a theorem (evidence.unproved).'),
+             'started window, the last one the aggregate of the forming window. STORE PROTOCOL, for every store content and '
+             'timeframe: the four write operations of the simulators (new minute, replace last minute, publish the forming '
+             'window before an execution or a forced close, close a window) keep a pre-invariant resp. establish the store '
+             'invariant, and the rows the publish step selects by timestamp arithmetic are the window of the last stored '
+             'minute. ENGINE, for EVERY user strategy: no function of the strategy layer (order execution with its hooks, '
+             'a strategy step, the market-order queue, the route step, the end of the run) writes the candle store, and the '
+             'engine model\'s partial-candle update turns the pre-invariant into the invariant. Tie: translator + store and '
+             'whole-session correspondence; oracle on real sessions reads every timeframe at every hook (liquidation hooks '
+             'included) in both simulators.',
+        technique='Lean 4 theorems over generated aggregation + hand store and engine models (window decomposition, invariant, write protocol, frame for the strategy layer); correspondence; every-hook session oracle',
+        ref='4 (C07), 8.2',
+        note='The order in which one iteration performs the protocol operations is read off the engine model (symStep / simulateMinute) and decided by correspondence + oracle, not by one run-level theorem (evidence.unproved).'),
     'C08': dict(
         text='Proof over the definition of split_candle REGENERATED from the source on every run: it equals the cut of the '
              'continuous O-L-H-C / O-H-L-C path at the first visit of the price (full functional spec), hence valid parts, '
